@@ -176,6 +176,32 @@ def main():
                             viol("bits", args=key, note="C and Python build different particles (%s variant)" % variant, c=a_, py=b_)
         if len(res["samples"]) < 3 and want in (100, 14):
             res["samples"].append({"args": key, "spec": want, "c": cc, "py": pc})
+    # ---- Galilean invariance of the constructors: the same elements around a primary at rest at the origin and around a displaced,
+    #      moving primary (distinct components) give the same relative state; both front ends, classical and Pal element sets
+    prim0 = rebound.Particle(m=1.0, x=0.0, y=0.0, z=0.0, vx=0.0, vy=0.0, vz=0.0)
+    prim1 = rebound.Particle(m=1.0, x=1.5, y=-2.25, z=0.75, vx=0.25, vy=-0.5, vz=1.25)
+    elsets = [{"a": 1.3, "e": 0.2, "inc": 0.4, "Omega": 0.7, "omega": 1.9, "f": 2.3}, {"a": 0.8, "e": 0.05, "inc": 2.6, "Omega": 4.0, "omega": 0.3, "M": 1.1},
+              {"a": -2.0, "e": 1.7, "inc": 0.9, "Omega": 1.0, "omega": 2.0, "f": 0.4}, {"P": 3.0, "e": 0.1, "inc": 0.2, "l": 1.0, "pomega": 0.5, "Omega": 0.2},
+              {"a": 1.3, "h": 0.12, "k": -0.07, "l": 0.9, "ix": 0.05, "iy": -0.11}, {"a": 2.1, "h": -0.2, "k": 0.1, "l": 4.0, "ix": -0.3, "iy": 0.02}, {"a": 1.0, "l": 2.0, "h": 0.3}]
+    for els in elsets:
+        for front in (call_c, call_py):
+            outs = []
+            for prim in (prim0, prim1):
+                kw = dict({"m": 1e-3}, **els)
+                kw["primary"] = prim
+                c, b, isn, msg = front(sim, kw)
+                outs.append((c, b, isn, msg))
+            res["accepted"] += 1
+            if outs[0][0] is not None or outs[1][0] is not None:
+                viol("galilean-refused", elements=els, front="c" if front is call_c else "python", messages=[outs[0][3], outs[1][3]])
+                continue
+            r0 = struct.unpack("7d", outs[0][1])
+            r1 = struct.unpack("7d", outs[1][1])
+            pv = (prim1.x, prim1.y, prim1.z, prim1.vx, prim1.vy, prim1.vz)
+            bad = [k for k in range(6) if abs(r1[k] - (pv[k] + r0[k])) > 4 * math.ulp(max(abs(pv[k]), abs(r0[k]), 1.0))]
+            if bad or r0[6] != r1[6]:
+                viol("galilean", elements=els, front="c" if front is call_c else "python", components=["x", "y", "z", "vx", "vy", "vz"][bad[0]] if bad else "m",
+                     at_rest=r0, moving_primary=r1, primary=pv)
     # ---- value classes of a structurally valid classical call
     for e2, ap, by, pm, want in V_rows:
         e = e2 / 2.0
